@@ -582,7 +582,9 @@ package gocql
 //@   before[C03] finish: finish_calls == 1 && writeShort_calls == len(w.statements) + 1 && writeLongString_calls + writeShortBytes_calls == len(w.statements) && writeConsistency_calls == ite(f.proto >= 3 && w.serialConsistency > 0, 2, 1) && writeLong_calls == ite(f.proto >= 3 && w.defaultTimestamp, 1, 0)
 //@   before[C03] finish: writeUint_calls == ite(f.proto >= 5, 1, 0) && writeByte_calls == len(w.statements) + 1 + ite(f.proto >= 3 && f.proto <= 4, 1, 0)
 //@   running writeHeader_calls == 1 && finish_calls == 0 ==> header_is(f, byte(0x0d), streamID) && f.buf[1] == f.flags
-//@   ensures[C03] !soft_panic() && result == nil ==> header_is(f, byte(0x0d), streamID) && length_is(f) && f.buf[1] == f.flags && (f.flags&0x04 != 0) == (old(f.flags)&0x04 != 0 || len(customPayload) > 0)
+//@   ensures[C03] !soft_panic() && result == nil ==> header_is(f, byte(0x0d), streamID)
+//@   ensures[C03] !soft_panic() && result == nil ==> length_is(f)
+//@   ensures[C03] !soft_panic() && result == nil ==> f.buf[1] == f.flags && (f.flags&0x04 != 0) == (old(f.flags)&0x04 != 0 || len(customPayload) > 0)
 //@   loop 0: invariant 0 <= i && i <= n && n == len(w.statements) && flags == 0 && writeByte_calls == i + 1 && writeShort_calls == i + 1 && writeLongString_calls + writeShortBytes_calls == i
 //@   loop 0: invariant writeHeader_calls == 1 && finish_calls == 0 && writeConsistency_calls == 0 && writeUint_calls == 0 && writeLong_calls == 0 && writeCustomPayload_calls == 1
 //@   loop 0: invariant header_is(f, byte(0x0d), streamID) && f.buf[1] == f.flags
